@@ -131,15 +131,34 @@ Fixpoint script_view (scripts : list text) (l : list text) : list text :=
   | x :: l' => if existsb (text_eqb x) scripts then l else script_view scripts l'
   end.
 
-(** The child really received what was handed over: argv (not for a shell command, whose splitting is the
-    shell's), stdin, current directory. *)
+(** The words of a shell command line that consists only of characters the shell leaves alone (letters, digits,
+    [. _ / = , + - : { }]) and blanks: what [sh -c] gives the program as argv.  [None]: the line contains something
+    else (quotes, escapes, [$], ...) - its splitting is the shell's business and is not judged. *)
+Definition shell_plain_char (c : N) : bool :=
+  ((48 <=? c) && (c <=? 58)) || ((65 <=? c) && (c <=? 90)) || ((97 <=? c) && (c <=? 122)) ||
+  existsb (N.eqb c) [46; 95; 47; 61; 44; 43; 45; 123; 125].
+Fixpoint split_blanks (cur : text) (s : text) : list text :=
+  match s with
+  | [] => match cur with [] => [] | _ => [rev cur] end
+  | c :: s' => if c =? 32 then (match cur with [] => [] | _ => [rev cur] end) ++ split_blanks [] s'
+               else split_blanks (c :: cur) s'
+  end.
+Definition shell_words (s : text) : option (list text) :=
+  if forallb (fun c => shell_plain_char c || (c =? 32)) s then Some (split_blanks [] s) else None.
+
+(** The child really received what was handed over: argv (for a shell command only when the line is plain, see
+    [shell_words]; otherwise its splitting is the shell's), stdin, current directory. *)
 Definition child_ok (scripts : list text) (o : pobs) : bool :=
   match po_child o with
   | None => false
   | Some c =>
       match po_exe o with
       | ExArgv l => texts_eqb (script_view scripts l) (ch_argv c)
-      | ExShell _ => true
+      | ExShell s => match shell_words s with
+                     | Some ws => texts_eqb (script_view scripts ws) (ch_argv c)
+                     | None => true
+                     end
+      | ExShellList _ => false
       end &&
       text_eqb (match po_stdin o with Some t => t | None => [] end) (ch_stdin c) &&
       text_eqb (po_cwd o) (ch_cwd c)
